@@ -261,6 +261,19 @@ def singular_rows(system):
 
 
 
+def _dask_array(compute):
+    import awkward as ak
+    import vector
+
+    try:
+        import dask_awkward as dak
+    except ImportError:
+        return None
+    a = dak.from_awkward(ak.Array([[{"px": 1.0, "py": 2.0, "pz": 3.0, "E": 10.0}], [], [{"px": 3.0, "py": 4.0, "pz": 0.5, "E": 9.0}]]), npartitions=1)
+    v = vector.Array(a)
+    return (v.pt.compute(), v.boostZ(beta=0.5).mass.compute()) if compute else v
+
+
 def _merged_behavior():
     import awkward as ak
     import vector.backends.awkward as vba
@@ -425,6 +438,9 @@ def run_state(spec, tier, seed, res):
                       lambda: ak.zip({"x": ak.Array([[1.0], []]), "y": ak.Array([[2.0], []])}, with_name="Vector2D",
                                      behavior=_merged_behavior()).rotateZ(0.5).rho),
                      ("ak.with_name on a vector array", lambda: ak.with_name(vector.zip({"x": [[1.0]], "y": [[2.0]]}), "Momentum2D").pt),
+                     # lazy (dask-awkward) collections handed to the constructor, and computed afterwards
+                     ("vector.Array(dask_awkward collection)", lambda: _dask_array(False)),
+                     ("vector.Array(dask_awkward collection).compute()", lambda: _dask_array(True)),
                      ("repr", lambda: repr(vector.array({"x": [1.0, 2.0, 3.0], "y": [2.0, 3.0, 4.0]}))),
                      ("repr-obj", lambda: repr(vector.obj(pt=1.0, phi=2.0, eta=0.5, mass=0.1))),
                      ("str-awkward", lambda: str(vector.zip({"x": [[1.0], []], "y": [[2.0], []]}))),
